@@ -963,7 +963,7 @@ fn main() {
             let p = if prop == "C18" || prop == "C16" || prop == "C17" || prop == "C08" { "all".to_string() } else { prop.clone() };
             if prop == "C06" { fam_deadline(&mut o, seed); }
             if prop == "C04" { let mut r = spaces::Rep { n: 0 }; spaces::fam_convex(&mut r, seed); o.n += r.n; }      // premise of C04: convex regions
-            if prop == "C05" { let mut r = spaces::Rep { n: 0 }; spaces::fam_interp(&mut r, seed); o.n += r.n; }      // premise of C05: interpolation at constant speed
+            if prop == "C05" || prop == "C03" { let mut r = spaces::Rep { n: 0 }; spaces::fam_interp(&mut r, seed); o.n += r.n; }      // premise of C05 and of C03 (the motion check spaces its queries by the distance): interpolation at constant speed
             if prop == "C15" || prop == "C17" { fam_extension_reference(&mut o, seed, Instant::now() + Duration::from_secs_f64(budget / 3.0)); }
             if prop == "C16" { fam_bias(&mut o, seed); fam_extension_reference(&mut o, seed, Instant::now() + Duration::from_secs_f64(budget / 3.0)); }
             // the scripted-roadmap reference (exact link rule, reference BFS) also exposes wrong start connections / over-long first edges
